@@ -103,7 +103,17 @@ fn scan(st: &State, rest: &str, code: bool) -> String {
 		let mut hits = Vec::new();
 		let mut exhausted = false;
 		for _ in 0..SCAN_CAP {
-			if matches.next(&mut save) { hits.push(fmt_hit(&save)); } else { exhausted = true; break; }
+			// C03 (anchor `Matches.range.start`): the remaining range strictly shrinks with every reported match —
+			// all three strategies leave `range.start` beyond the reported cursor — so the number of matches is
+			// bounded by the number of start positions; a reported match that leaves it where it was repeats forever.
+			let before = matches.range().start;
+			if matches.next(&mut save) {
+				hits.push(fmt_hit(&save));
+				let after = matches.range().start;
+				if after <= before {
+					return format!("diverge scan: Matches::next reported a match and left range.start at {} (was {}): the same candidate is examined again without bound", after, before);
+				}
+			} else { exhausted = true; break; }
 		}
 		let r = matches.range();
 		format!("ok [{}] range={}..{} hits={} more={}", hits.join(";"), r.start, r.end, matches.hits(), b01(!exhausted))
